@@ -311,7 +311,7 @@ func GetPduSessionReleaseRequest(pduSessionId uint8) []byte {
 		nasMessage.Epd5GSSessionManagementMessage)
 	pduSessionReleaseRequest.SetMessageType(nas.MsgTypePDUSessionReleaseRequest)
 	pduSessionReleaseRequest.PDUSessionID.SetPDUSessionID(pduSessionId)
-	pduSessionReleaseRequest.PTI.SetPTI(0x00)
+	pduSessionReleaseRequest.PTI.SetPTI(0x01)
 
 	m.GsmMessage.PDUSessionReleaseRequest = pduSessionReleaseRequest
 
